@@ -75,7 +75,9 @@ theorem valComp_step_inv (e : Bool) (s s' : Val) (l : VLbl) (hi : s.inv e) (h : 
       refine ⟨by simpa using h1, ?_⟩
       intro v hv'
       simp at hv'; subst hv'
-      simpa [ht] using h1
+      cases ht with
+      | inl ht => simpa [ht] using h1
+      | inr ht => simp [ht] at h1; simp [ht, ← h1]
 
 theorem runSolo_val_inv (e : Bool) (ls : List VLbl) (s s' : Val) (hi : s.inv e) (h : runSolo valComp s ls = some s') : s'.inv e := by
   induction ls generalizing s with
